@@ -163,22 +163,31 @@ pub fn c04(ep: &EnergyPerformance) -> Option<String> {
     None
 }
 
-/// C13 on one result (k_exp = 0): rer == ren/tot in [0,1]; nesting 0 <= onst <= nrb <= rer
-pub fn c13(ep: &EnergyPerformance) -> (Option<String>, Option<String>) {
+/// C13 on one result (k_exp = 0): rer == ren/tot in [0,1]; nesting 0 <= onst <= nrb <= rer; and the (assumed) contract of
+/// ren_onst_nrb: the two perimeter parts equal the sums the function documents
+pub fn c13(ep: &EnergyPerformance) -> Vec<(&'static str, String)> {
     let b = ep.balance.we.b;
     let tot = b.ren + b.nren;
-    let mut main = None;
+    let mut out = vec![];
     if tot > 1e-3 {
-        if !eq(ep.rer, b.ren / tot) { main = Some(format!("RER {} != ren/(ren+nren) = {}", ep.rer, b.ren / tot)); }
-        else if !(ep.rer >= -1e-5 && ep.rer <= 1.0 + 1e-5) { main = Some(format!("RER {} outside [0,1]", ep.rer)); }
+        if !eq(ep.rer, b.ren / tot) { out.push(("C13.rer", format!("RER {} != ren/(ren+nren) = {}", ep.rer, b.ren / tot))); }
+        else if !(ep.rer >= -1e-5 && ep.rer <= 1.0 + 1e-5) { out.push(("C13.range", format!("RER {} outside [0,1] (ren {} nren {})", ep.rer, b.ren, b.nren))); }
+        if ep.rer_onst < -1e-5 { out.push(("C13.onst_nonneg", format!("RER_onst {} negative", ep.rer_onst))); }
+        if !le(ep.rer_onst, ep.rer_nrb) { out.push(("C13.nested", format!("perimeters not nested: RER_onst {} > RER_nrb {} (RER {})", ep.rer_onst, ep.rer_nrb, ep.rer))); }
+        if !le(ep.rer_nrb, ep.rer) { out.push(("C13.nrb_le_rer", format!("RER_nrb {} > RER {}", ep.rer_nrb, ep.rer))); }
+        // contract of ren_onst_nrb
+        let el = ep.balance_cr.get(&Carrier::ELECTRICIDAD);
+        let (onst_el, cgn_el, expa_el) = el.map(|c| (c.we.del_onst.ren, c.we.del_cgn.ren, c.we.exp_a.ren)).unwrap_or((0.0, 0.0, 0.0));
+        let nrb_cr: f32 = ep.balance_cr.iter().filter(|(c, _)| c.is_nearby()).map(|(_, v)| v.we.b.ren).sum();
+        let onst_cr: f32 = ep.balance_cr.iter().filter(|(c, _)| c.is_onsite()).map(|(_, v)| v.we.b.ren).sum();
+        let want_onst = (onst_cr + onst_el) / tot;
+        let want_nrb = (nrb_cr + onst_el + cgn_el - (1.0 - ep.k_exp) * expa_el) / tot;
+        if !eq(ep.rer_onst, want_onst) { out.push(("C13.ren_parts_contract", format!("RER_onst {} but on-site carriers + on-site electricity give {}", ep.rer_onst, want_onst))); }
+        if !eq(ep.rer_nrb, want_nrb) { out.push(("C13.ren_parts_contract", format!("RER_nrb {} but nearby carriers + on-site and cogenerated electricity - (1-k) step A exported give {}", ep.rer_nrb, want_nrb))); }
     } else if tot == 0.0 && ep.rer != 0.0 {
-        main = Some(format!("RER {} with zero total", ep.rer));
+        out.push(("C13.zero_total", format!("RER {} with zero total", ep.rer)));
     }
-    let mut nest = None;
-    if tot > 1e-3 && !(ep.rer_onst >= -1e-5 && le(ep.rer_onst, ep.rer_nrb) && le(ep.rer_nrb, ep.rer)) {
-        nest = Some(format!("perimeters not nested: RER_onst {} RER_nrb {} RER {}", ep.rer_onst, ep.rer_nrb, ep.rer));
-    }
-    (main, nest)
+    out
 }
 
 fn annual_sig(ep: &EnergyPerformance) -> Vec<f32> {
@@ -189,6 +198,9 @@ fn sig_eq(a: &[f32], b: &[f32]) -> Option<usize> {
     a.iter().zip(b).position(|(x, y)| !eq(*x, *y))
 }
 
+fn tcase(text: &str, k: f32, area: f32, lm: bool) -> Case {
+    Case { text: text.to_string(), loc: "PENINSULA", k_exp: k, area, lm }
+}
 fn case(steps: &[B], loc: &'static str, k: f32, area: f32, lm: bool) -> Case {
     Case { text: gen::text(steps), loc, k_exp: k, area, lm }
 }
@@ -220,6 +232,36 @@ pub fn check(pid: &str, seed: u64) -> Value {
             failures.push(json!({"clause": clause, "components": gen::text(steps), "loc": "PENINSULA", "k_exp": k, "area": area, "load_matching": lm, "what": what}));
         }
     };
+    // hand-written special buildings (two cogeneration units, PV surplus to non-EPB uses, district networks ...)
+    for t in gen::extras() {
+        for lm in [false, true] {
+            match pid {
+                "C01" | "C04" | "C13" => {
+                    let (k, area) = if pid == "C04" { (0.5, 2.5) } else { (0.0, 1.0) };
+                    evals += 1;
+                    if let Ok(ep) = run(&tcase(t, k, area, lm)) {
+                        nontrivial += 1;
+                        match pid {
+                            "C01" => if let Some(w) = c01(&ep) { failures.push(json!({"clause": "C01", "components": t, "k_exp": k, "load_matching": lm, "what": w})); },
+                            "C04" => if let Some(w) = c04(&ep) { failures.push(json!({"clause": "C04", "components": t, "k_exp": k, "load_matching": lm, "what": w})); },
+                            _ => for (cl, w) in c13(&ep) { if known.iter().filter(|f| f["clause"] == cl).count() < 3 { known.push(json!({"clause": cl, "components": t, "k_exp": k, "load_matching": lm, "what": w})); } },
+                        }
+                    }
+                }
+                "C03" => {
+                    let mut v = vec![];
+                    for k in [0.0f32, 0.25, 0.5, 1.0] { evals += 1; if let Ok(ep) = run(&tcase(t, k, 1.0, lm)) { v.push((k, ep)); } }
+                    if v.len() == 4 { nontrivial += 1; if let Some(w) = c03(&v) { failures.push(json!({"clause": "C03", "components": t, "load_matching": lm, "what": w})); } }
+                }
+                "C12" => {
+                    if lm { continue; }
+                    evals += 2;
+                    if let (Ok(a), Ok(b)) = (run(&tcase(t, 0.0, 1.0, true)), run(&tcase(t, 0.0, 1.0, false))) { nontrivial += 1; if let Some(w) = c12(&a, &b) { failures.push(json!({"clause": "C12", "components": t, "what": w})); } }
+                }
+                _ => {}
+            }
+        }
+    }
     for (idx, steps) in all.iter().enumerate() {
         if gen::text(steps).is_empty() { continue; }
         let nt = steps.iter().any(|b| (b.pv > 0.0 || b.chp > 0.0) && (b.cal_el > 0.0 || b.acs_el > 0.0));
@@ -232,7 +274,7 @@ pub fn check(pid: &str, seed: u64) -> Value {
                     evals += 1;
                     if let Ok(ep) = run(&c) {
                         if nt { nontrivial += 1; }
-                        let r = match pid { "C01" => c01(&ep), "C04" => c04(&ep), _ => { let (m, n) = c13(&ep); if let Some(n) = n { if known.len() < 3 { known.push(json!({"clause": "C13.nested", "components": c.text, "loc": "PENINSULA", "k_exp": k, "area": area, "load_matching": lm, "what": n})); } } m } };
+                        let r = match pid { "C01" => c01(&ep), "C04" => c04(&ep), _ => { for (cl, w) in c13(&ep) { if known.iter().filter(|f| f["clause"] == cl).count() < 3 { known.push(json!({"clause": cl, "components": c.text, "loc": "PENINSULA", "k_exp": k, "area": area, "load_matching": lm, "what": w})); } } None } };
                         if let Some(w) = r { fail(&mut failures, steps, k, area, lm, w); }
                         if idx % 400 == 7 && samples.len() < 4 { samples.push(json!({"components": c.text, "load_matching": lm})); }
                     }
@@ -279,7 +321,7 @@ pub fn check(pid: &str, seed: u64) -> Value {
                         }
                         for m in [2usize, 3] {
                             let f = 1.0 / m as f32;
-                            let sub: Vec<B> = steps.iter().flat_map(|b| std::iter::repeat(B { cal_el: b.cal_el * f, acs_el: b.acs_el * f, nepb_el: b.nepb_el * f, pv: b.pv * f, chp: b.chp * f, gas: b.gas * f, amb: b.amb * f }).take(m)).collect();
+                            let sub: Vec<B> = steps.iter().flat_map(|b| std::iter::repeat(B { cal_el: b.cal_el * f, acs_el: b.acs_el * f, nepb_el: b.nepb_el * f, pv: b.pv * f, chp: b.chp * f, gas: b.gas * f, amb: b.amb * f, amb_prod: b.amb_prod * f }).take(m)).collect();
                             evals += 1;
                             if let Ok(e) = run(&case(&sub, "PENINSULA", k, 1.0, lm)) {
                                 if let Some(p) = sig_eq(&base, &annual_sig(&e)) { fail(&mut failures, steps, k, 1.0, lm, format!("annual result #{} changes when every step is split in {}: {} vs {}", p, m, base[p], annual_sig(&e)[p])); }
@@ -297,7 +339,7 @@ pub fn check(pid: &str, seed: u64) -> Value {
                     if nt { nontrivial += 1; }
                     let base = annual_sig(&e0);
                     for c in [2.0f32, 0.5, 8.0] {
-                        let sc: Vec<B> = steps.iter().map(|b| B { cal_el: b.cal_el * c, acs_el: b.acs_el * c, nepb_el: b.nepb_el * c, pv: b.pv * c, chp: b.chp * c, gas: b.gas * c, amb: b.amb * c }).collect();
+                        let sc: Vec<B> = steps.iter().map(|b| B { cal_el: b.cal_el * c, acs_el: b.acs_el * c, nepb_el: b.nepb_el * c, pv: b.pv * c, chp: b.chp * c, gas: b.gas * c, amb: b.amb * c, amb_prod: b.amb_prod * c }).collect();
                         evals += 1;
                         if let Ok(e) = run(&case(&sc, "PENINSULA", 0.5, 2.0, lm)) {
                             let s = annual_sig(&e);
@@ -309,7 +351,7 @@ pub fn check(pid: &str, seed: u64) -> Value {
                         }
                         evals += 1;
                         if let Ok(e) = run(&case(steps, "PENINSULA", 0.5, 2.0 * c, lm)) {
-                            if !eq(e.balance_m2.we.b.nren * c, e0.balance_m2.we.b.nren) || !eq(e.balance.we.b.nren, e0.balance.we.b.nren) || !eq(e.rer, e0.rer) {
+                            if !eq(e.balance_m2.we.b.nren * c, e0.balance_m2.we.b.nren) || !eq(e.balance.we.b.nren, e0.balance.we.b.nren) || !eq(e.rer, e0.rer) || !eq(e.rer_nrb, e0.rer_nrb) || !eq(e.rer_onst, e0.rer_onst) {
                                 fail(&mut failures, steps, 0.5, 2.0 * c, lm, format!("multiplying the area by {} does not divide the per-m2 result by it (or changes something else)", c));
                             }
                         }
